@@ -42,12 +42,18 @@ type Scenario struct {
 	Check func(sc *Scenario, seed *Seed, path []string, act *Action, job *harness.Job, t *harness.Trace)
 	// MaxStates caps the frontier per level (0 = unlimited); hitting it is reported.
 	MaxStates int
+	// Enabled (optional) restricts which actions are explored from a state, given the
+	// observation recorded at that state (needs Want.Obs >= 1).
+	Enabled func(parent *harness.Obs, act *Action) bool
+	// WholePath records every wait from the end of the seed preamble (path-level oracles).
+	WholePath bool
 }
 
 type bfsState struct {
 	seed *Seed
 	path []Action
 	hash string
+	obs  *harness.Obs
 }
 
 func pathNames(p []Action) []string {
@@ -108,7 +114,7 @@ func (c *Ctx) BFS(sc *Scenario) {
 		if !seen[h] {
 			seen[h] = true
 			c.States++
-			frontier = append(frontier, bfsState{seed: s, hash: h})
+			frontier = append(frontier, bfsState{seed: s, hash: h, obs: call.Waits[len(call.Waits)-1].Obs})
 		}
 	})
 	sort.Slice(frontier, func(i, j int) bool { return frontier[i].seed.Name < frontier[j].seed.Name })
@@ -137,8 +143,14 @@ func (c *Ctx) BFS(sc *Scenario) {
 			}
 			for ai := range sc.Alphabet {
 				a := &sc.Alphabet[ai]
+				if sc.Enabled != nil && !sc.Enabled(st.obs, a) {
+					continue
+				}
 				w := want
 				w.From = base
+				if sc.WholePath {
+					w.From = len(st.seed.Pre)
+				}
 				jobs = append(jobs, harness.Job{ID: len(jobs), Cfg: sc.Cfg, Calls: [][]harness.Answer{buildAnswers(st.seed, st.path, a.Ans...)}, Want: w})
 				metas = append(metas, meta{st: st, act: a})
 			}
@@ -169,8 +181,15 @@ func (c *Ctx) BFS(sc *Scenario) {
 			}
 			call := LastCall(t)
 			// replay validation: the parent's hash must be reproduced
-			if len(call.Waits) > 0 && call.Waits[0].Hash != m.st.hash {
-				c.HarnessError(fmt.Sprintf("%s: replay divergence at %s/%v (parent hash %s, replay gave %s)", sc.Name, m.st.seed.Name, pathNames(m.st.path), m.st.hash, call.Waits[0].Hash))
+			pidx := 0
+			if sc.WholePath {
+				pidx = 0
+				for _, a := range m.st.path {
+					pidx += len(a.Ans)
+				}
+			}
+			if len(call.Waits) > pidx && call.Waits[pidx].Hash != m.st.hash {
+				c.HarnessError(fmt.Sprintf("%s: replay divergence at %s/%v (parent hash %s, replay gave %s)", sc.Name, m.st.seed.Name, pathNames(m.st.path), m.st.hash, call.Waits[pidx].Hash))
 				return
 			}
 			if sc.Check != nil {
@@ -184,7 +203,7 @@ func (c *Ctx) BFS(sc *Scenario) {
 				seen[h] = true
 				c.States++
 				np := append(append([]Action{}, m.st.path...), *m.act)
-				next = append(next, bfsState{seed: m.st.seed, path: np, hash: h})
+				next = append(next, bfsState{seed: m.st.seed, path: np, hash: h, obs: call.Waits[len(call.Waits)-1].Obs})
 			}
 		})
 		// deterministic order of the next frontier (shortest-first is inherent)
